@@ -2098,3 +2098,133 @@ func ruleBindingReaderCoversWriter(c *Ctx, rule string) {
 		ob.Bad("INSERTVARIABLE enters bindings into " + strings.Join(missing, ", ") + ", which MATCHVAR never reads (it reads " + strings.Join(sortedKeys(read), ", ") + "): a back-reference inside a named loop does not see the capture of the same iteration - `at least 1 ((digit = d) d)` finds \"11\", the same loop `named n` finds nothing")
 	}
 }
+
+// ---------------------------------------------------------------------------------------------
+// C02.R13 / C14.R17: a back-reference to a name that is not bound fails.
+//
+// "A back-reference matches exactly the text currently bound to its name": when nothing is bound (the group took no part in the
+// match so far) there is no such text, and a conventional backtracking engine fails the reference. On the branch of MATCHVAR taken
+// when the lookup did not find the name, the machine must backtrack and must not match, consume or move on.
+func ruleUnboundReferenceFails(c *Ctx, rule string) {
+	r := c.R
+	fn := c.stateMethod("MATCHVAR")
+	ob := r.Ob(rule, "MATCHVAR: a name that is not bound makes the reference fail", "")
+	if fn == nil {
+		ob.Und("MATCHVAR not found")
+		return
+	}
+	ob.Pos = c.pos(fn.Pos())
+	cds := NewPostDom(fn).ControlDeps()
+	var notFound []*ssa.BasicBlock
+	for _, b := range fn.Blocks {
+		for _, l := range condsOf(cds, b) {
+			v, pol := l.Cond, l.Pol
+			for {
+				u, isNot := v.(*ssa.UnOp)
+				if !isNot || u.Op != token.NOT {
+					break
+				}
+				v, pol = u.X, !pol
+			}
+			ex, ok := v.(*ssa.Extract)
+			if !ok || ex.Index != 1 || pol {
+				continue
+			}
+			if bt, ok := ex.Type().Underlying().(*types.Basic); ok && bt.Kind() == types.Bool {
+				notFound = append(notFound, b)
+			}
+		}
+	}
+	if len(notFound) == 0 {
+		ob.Und("no branch of MATCHVAR is controlled by the found-flag of a lookup")
+		return
+	}
+	backtracks := false
+	var moves []string
+	for _, b := range notFound {
+		// only the blocks that are reached because the name was not found - not the join after the test
+		for _, in := range b.Instrs {
+			sc := staticCallee(in)
+			if sc == nil || sc.Signature.Recv() == nil {
+				continue
+			}
+			switch sc.Name() {
+			case "BACKTRACK":
+				backtracks = true
+			case "MATCH", "NEXT", "CONSUME", "JUMP":
+				moves = append(moves, sc.Name()+" at "+c.pos(in.Pos()))
+			}
+		}
+	}
+	switch {
+	case len(moves) > 0:
+		ob.Bad("on the branch taken when the name is not bound MATCHVAR goes on (" + strings.Join(uniq(moves), ", ") + "): a reference to a group that took no part in the match succeeds, `@/(a)?\\\\1b/` finds a lone \"b\" that no conventional engine reports")
+	case backtracks:
+		ob.OKnt("the not-found branch backtracks and does nothing else to the machine")
+	default:
+		ob.Und("the not-found branch neither backtracks nor moves the machine in a way this rule reads")
+	}
+}
+
+// ---------------------------------------------------------------------------------------------
+// C15.R11: the end of the input is not a command, and not an error either.
+//
+// After the last command a program may go on with blanks and comments. The loop over the commands skips them and then stands on
+// the EOF token; the command parser, asked there, must answer "no command" without an error - otherwise a trailing blank or
+// comment makes an accepted program unacceptable. With the kind of the token it looks at fixed to EOF, every return of the
+// command parser that stays reachable carries a nil error.
+func ruleEOFIsNotACommandError(c *Ctx, rule string) {
+	r := c.R
+	fn := c.Fn("ast", "parse_command")
+	ob := r.Ob(rule, "parse_command answers the EOF token without an error", "")
+	if fn == nil {
+		ob.Und("ast.parse_command not found")
+		return
+	}
+	ob.Pos = c.pos(fn.Pos())
+	ttT := c.NamedType("ast", "TokenType")
+	var eof constant.Value
+	if p := c.Pkgs["ast"]; p != nil && ttT != nil {
+		if cst, ok := p.Types.Scope().Lookup("EOF").(*types.Const); ok && types.Identical(cst.Type(), ttT) {
+			eof = cst.Val()
+		}
+	}
+	if eof == nil {
+		ob.Und("constant ast.EOF of type TokenType not found")
+		return
+	}
+	w := &World{Fn: fn, Seed: func(v ssa.Value) (constant.Value, bool) {
+		if u, ok := v.(*ssa.UnOp); ok && u.Op == token.MUL {
+			if fa, ok := u.X.(*ssa.FieldAddr); ok && types.Identical(u.Type(), ttT) && fieldName(deref(fa.X.Type()), fa.Field) == "TokenType" {
+				return eof, true
+			}
+		}
+		return nil, false
+	}}
+	w.Run()
+	nret := 0
+	var bad []string
+	for _, b := range fn.Blocks {
+		if !w.Reach[b] {
+			continue
+		}
+		ret, ok := b.Instrs[len(b.Instrs)-1].(*ssa.Return)
+		if !ok || len(ret.Results) == 0 {
+			continue
+		}
+		nret++
+		last := ret.Results[len(ret.Results)-1]
+		if !isNilConst(last) {
+			bad = append(bad, c.pos(ret.Pos()))
+		}
+	}
+	switch {
+	case nret == 0:
+		ob.Und("with the token kind fixed to EOF no return of parse_command stays reachable")
+	case len(bad) > 0:
+		sort.Strings(bad)
+		ob.Bad("with the token kind fixed to EOF parse_command returns an error (at " + strings.Join(uniq(bad), ", ") + "): a program that is followed by a blank, a newline or a comment is rejected although the same program without it is accepted")
+	default:
+		ob.OKnt(fmt.Sprintf("with the token kind fixed to EOF the %d reachable return(s) carry a nil error", nret))
+	}
+}
